@@ -177,6 +177,8 @@ def to_str(I, v) -> z3.ExprRef:
             m = I.ctx.repo.find_method(cd.info, "__str__")
             if m is not None:
                 return to_str(I, I.call_function(m, [sv], {}, None))
+        if cd is not None and cd.kind == "env" and "__str__" in cd.info.methods:
+            return to_str(I, cd.info.methods["__str__"](I, sv, [], {}))
         return V.str_of(sv)
     if cn is None:
         return z3.If(V.is_str(sv), Val.s(sv), V.str_of(sv))
@@ -378,8 +380,10 @@ def del_item(I, cont, key, node):
     if cn is None:
         if I.choose(V.is_dict(sc), "delitem_dict"):
             cn = "dict"
+        elif I.choose(V.is_list(sc), "delitem_list"):
+            raise Unsupported("del on a symbolic list", node)
         else:
-            raise Unsupported("del on a non-dict symbolic container", node)
+            I.throw("TypeError", "object does not support item deletion")
     if cn == "dict":
         k = _dict_key(I, key, node)
         if k is None:
